@@ -6,7 +6,7 @@ It never imports the analysed package.  Anything outside the subset folds to UNK
 from __future__ import annotations
 
 import ast
-from typing import Any, Dict, Optional
+from typing import Any, Dict, List, Optional
 
 from .model import AnalysisError, Module, Program, Class, Func
 
@@ -322,6 +322,9 @@ class Folder:
                     raise Unfoldable("range too large")
                 return rr
             return _SAFE_CALLS[n.func.id](*args, **kwargs)
+        callee = self._package_function(n.func, mod, env)
+        if callee is not None:
+            return self._apply(callee, args, kwargs)
         if isinstance(n.func, ast.Attribute):
             recv = self._f(n.func.value, mod, env)
             for ty, meth in _SAFE_METHODS:
@@ -331,6 +334,115 @@ class Folder:
                         return list(res)
                     return res
         raise Unfoldable("call")
+
+    # ------------------------------------------------------------ module-level helper applied to constants
+    def _package_function(self, fn: ast.AST, mod: Module, env: Dict[str, Any]):
+        """Module-level package function addressed by a bare name or `alias.name` (not shadowed by a local)."""
+        r = None
+        if isinstance(fn, ast.Name) and fn.id not in env:
+            r = self.prog.resolve_name(mod, fn.id)
+        elif isinstance(fn, ast.Attribute) and isinstance(fn.value, ast.Name) and fn.value.id not in env:
+            m = self.prog.resolve_name(mod, fn.value.id)
+            if isinstance(m, Module):
+                r = m.functions.get(fn.attr)
+        if isinstance(r, Func) and r.cls is None and r.parent is None and not r.decorators:
+            return r
+        return None
+
+    def _apply(self, fn: Func, args: List[Any], kwargs: Dict[str, Any]) -> Any:
+        """Partial evaluation of a small pure helper on known arguments: assignments to locals, in-place updates of
+        local containers, `if` with a foldable test, `for` over a known sequence, one value per `return`.
+        Anything else (attribute stores, calls that do not fold, while, try, raise) is Unfoldable."""
+        self._depth = getattr(self, "_depth", 0) + 1
+        try:
+            if self._depth > 4:
+                raise Unfoldable("depth")
+            a = fn.node.args
+            if a.vararg or a.kwarg or a.posonlyargs:
+                raise Unfoldable("signature")
+            names = [x.arg for x in a.args]
+            if len(args) > len(names):
+                raise Unfoldable("arity")
+            env: Dict[str, Any] = dict(zip(names, args))
+            kwnames = names + [x.arg for x in a.kwonlyargs]
+            for k, v in kwargs.items():
+                if k not in kwnames or k in env:
+                    raise Unfoldable("keyword")
+                env[k] = v
+            defaults = dict(zip(names[len(names) - len(a.defaults):], a.defaults))
+            for x, d in zip(a.kwonlyargs, a.kw_defaults):
+                if d is not None:
+                    defaults[x.arg] = d
+            for k in kwnames:
+                if k not in env:
+                    if k not in defaults:
+                        raise Unfoldable("missing argument")
+                    env[k] = self._f(defaults[k], fn.module, {})
+            self._steps = 0
+            done, val = self._block(fn.node.body, fn.module, env)
+            return val if done else None
+        finally:
+            self._depth -= 1
+
+    def _block(self, stmts, mod: Module, env: Dict[str, Any]):
+        import copy as _copy
+
+        for st in stmts:
+            self._steps = getattr(self, "_steps", 0) + 1
+            if self._steps > 20000:
+                raise Unfoldable("too long")
+            if isinstance(st, ast.Expr) and isinstance(st.value, ast.Constant):
+                continue
+            if isinstance(st, ast.Pass):
+                continue
+            if isinstance(st, (ast.Assign, ast.AnnAssign)):
+                tgt = st.targets[0] if isinstance(st, ast.Assign) and len(st.targets) == 1 else getattr(st, "target", None)
+                if st.value is None:
+                    continue
+                if not isinstance(tgt, ast.Name):
+                    raise Unfoldable("store")
+                v = self._f(st.value, mod, env)
+                # a bare name/attribute may denote a module-level container: never let a local update reach it
+                env[tgt.id] = _copy.copy(v) if isinstance(v, (list, dict, set)) and isinstance(st.value, (ast.Name, ast.Attribute)) else v
+                continue
+            if isinstance(st, ast.AugAssign) and isinstance(st.target, ast.Name) and isinstance(st.op, ast.Add):
+                cur = self._name(st.target.id, mod, env)
+                v = self._f(st.value, mod, env)
+                env[st.target.id] = cur + v
+                continue
+            if isinstance(st, ast.Expr) and isinstance(st.value, ast.Call) and isinstance(st.value.func, ast.Attribute):
+                c = st.value
+                recv = c.func.value
+                if isinstance(recv, ast.Name) and recv.id in env and not c.keywords:
+                    obj = self._name(recv.id, mod, env)
+                    argv = [self._f(x, mod, env) for x in c.args]
+                    meth = c.func.attr
+                    if isinstance(obj, list) and meth in ("append", "extend", "insert", "sort") or isinstance(obj, set) and meth in ("add", "update", "discard") or isinstance(obj, dict) and meth == "update":
+                        getattr(obj, meth)(*argv)
+                        continue
+                raise Unfoldable("statement call")
+            if isinstance(st, ast.If):
+                t = self._f(st.test, mod, env)
+                done, val = self._block(st.body if t else st.orelse, mod, env)
+                if done:
+                    return True, val
+                continue
+            if isinstance(st, ast.For) and isinstance(st.target, ast.Name) and not st.orelse:
+                seq = self._f(st.iter, mod, env)
+                if not isinstance(seq, (list, tuple, str, range, set, dict)):
+                    raise Unfoldable("iter")
+                if any(isinstance(x, (ast.Break, ast.Continue)) for b in st.body for x in ast.walk(b)):
+                    raise Unfoldable("break/continue")
+                for item in list(seq):
+                    env[st.target.id] = item
+                    done, val = self._block(st.body, mod, env)
+                    if done:
+                        return True, val
+                continue
+            if isinstance(st, ast.Return):
+                return True, (None if st.value is None else self._f(st.value, mod, env))
+            raise Unfoldable(type(st).__name__)
+        return False, None
 
     def _comp(self, n, mod: Module, env: Dict[str, Any]) -> Any:
         out: list = []
